@@ -1,11 +1,17 @@
 ----------------------------- MODULE MC_DelayHist -----------------------------
-(* Exhaustive exploration of DelayHist for one (TD, P): vacuity witnesses for  *)
-(* all four boundary situations, and the safety statement of the property as   *)
-(* an action property.                                                         *)
+(* Exhaustive exploration of DelayHist for the configurations CONFIGS (each     *)
+(* TD * 1000 + P): vacuity witnesses for all four boundary situations, and the  *)
+(* safety statement of the property as an action property.                      *)
 EXTENDS DelayHist, TLC
-VARIABLE S
+CONSTANT CONFIGS
+VARIABLES cfg, S
 
-Kinds == <<"accepted-at-exact-time", "rejected-one-ns-early", "accepted-at-exact-height", "rejected-one-block-early">>
+TD == TDof(cfg)
+P  == Pof(cfg)
+BD == BDof(TD, P)
+
+Kinds == <<"accepted-at-exact-time", "rejected-one-ns-early", "accepted-at-exact-height", "rejected-one-block-early",
+           "no-block-delay", "no-delay-at-all">>
 Idx(name) == CHOOSE i \in DOMAIN Kinds : Kinds[i] = name
 Witness(name) == IF TLCGet(Idx(name)) = 0 THEN TLCSet(Idx(name), 1) /\ PrintT(<<"WITNESS", name>>) ELSE TRUE
 Observe(a, r) ==
@@ -13,13 +19,15 @@ Observe(a, r) ==
       /\ (r.res = "ok"  /\ TD > 0 /\ r.S.t = TD => Witness("accepted-at-exact-time"))
       /\ (r.res = "err" /\ TD > 0 /\ r.S.t = TD - 1 /\ r.S.h >= BD => Witness("rejected-one-ns-early"))
       /\ (r.res = "ok"  /\ BD > 0 /\ r.S.h = BD => Witness("accepted-at-exact-height"))
-      /\ (r.res = "err" /\ BD > 0 /\ r.S.h = BD - 1 /\ r.S.t >= TD => Witness("rejected-one-block-early"))
+      /\ (r.res = "err" /\ BD > 1 /\ r.S.h = BD - 1 /\ r.S.t >= TD => Witness("rejected-one-block-early"))
+      /\ (r.res = "ok"  /\ TD > 0 /\ BD = 0 /\ r.S.h = 1 => Witness("no-block-delay"))
+      /\ (r.res = "ok"  /\ TD = 0 /\ r.S.h = 1 => Witness("no-delay-at-all"))
 
-Init == S = InitState /\ \A i \in DOMAIN Kinds : TLCSet(i, 0)
-Next == \E a \in Acts(S) : LET r == Step(S, a) IN S' = r.S /\ Observe(a, r)
-Spec == Init /\ [][Next]_S
+Init == cfg \in CONFIGS /\ S = InitState /\ \A i \in DOMAIN Kinds : TLCSet(i, 0)
+Next == \E a \in Acts(TD, S) : LET r == Step(TD, P, S, a) IN S' = r.S /\ cfg' = cfg /\ Observe(a, r)
+Spec == Init /\ [][Next]_<<cfg, S>>
 Bound == S.t <= TD + 3 /\ S.h <= BD + 3
 
 OnlyAfterBothDelays == [][S'.n > S.n => /\ (TD = 0 \/ S'.t >= TD)
-                                        /\ (P = 0 \/ TD = 0 \/ S'.h * P >= TD)]_S
+                                        /\ (P = 0 \/ TD = 0 \/ S'.h * P >= TD)]_<<cfg, S>>
 =============================================================================
